@@ -170,7 +170,7 @@ pub fn run_script(script: &Value, tags: &TagFiles, out: &mut dyn Write) -> bool 
                                   "res": res, "recvs": st.recv_calls, "writes": st.write_calls,
                                   "window": st.last_window, "popped": popped,
                                   "pending": if panicked { json!(false) } else { json!(conn.pending_write()) },
-                                  "digest": if panicked { json!(null) } else { digest(&conn) }});
+                                  "digest": if panicked { json!({"none": true}) } else { digest(&conn) }});
                     let more = !st.rxq.is_empty();
                     drop(st);
                     writeln!(out, "{}", line).unwrap();
